@@ -115,7 +115,7 @@ def build(timeout=3000):
     os.makedirs(WORK, exist_ok=True)
     os.makedirs(CASES, exist_ok=True)
     t0 = time.time()
-    with open(os.path.join(WORK, '.build.lock'), 'w') as lock:
+    with open(os.path.join(COQ, '.build.lock'), 'w') as lock:      # one build at a time per Coq tree
         fcntl.flock(lock, fcntl.LOCK_EX)
         tables.regenerate()
         proj = '-R . PV\n' + '\n'.join(coq_sources()) + '\n'
@@ -341,6 +341,10 @@ def prop_module(pid):
     return importlib.import_module('harness.props.%s' % pid.lower())
 
 
+class CheckTimeout(Exception):
+    pass
+
+
 def run_property(pid, tier, replay=None):
     t0 = time.time()
     seed = int(os.environ.get('VERIF_SEED', '0') or 0)
@@ -374,8 +378,20 @@ def run_property(pid, tier, replay=None):
     # 2. tie part (b): correspondence + search for a failing input on the implementation
     ctx = Ctx(pid, tier, seed)
     harness_error = None
+    # watchdog: a run that does not come back (an endless loop in the implementation or in the check) is reported,
+    # with the stack it was stopped at, rather than left hanging; the limit is far above any run on an intact tree
+    import signal
+    limit = int(os.environ.get('VERIF_RUN_LIMIT') or (2700 if tier == 'quick' else 6 * 3600))
+    def _expired(signum, frame):
+        raise CheckTimeout('run not finished after %d s' % limit)
+    old_handler = signal.signal(signal.SIGALRM, _expired)
+    signal.alarm(limit)
     try:
-        mod.run(ctx)
+        try:
+            mod.run(ctx)
+        finally:
+            signal.alarm(0)
+            signal.signal(signal.SIGALRM, old_handler)
     except HarnessError as e:
         harness_error = str(e)
         ctx.model_ok = False
@@ -428,7 +444,10 @@ def run_property(pid, tier, replay=None):
             k = f['what']
             if k in seen: continue
             seen.add(k)
-            lines.append('VIOLATION property=%s replay=%s' % (pid, write_replay(pid, f)))
+            # a run that broke inside the check itself has no concrete failing input to show
+            no_input = isinstance(f.get('case'), dict) and f['case'].get('origin') == 'harness'
+            lines.append('VIOLATION property=%s replay=%s%s' % (pid, write_replay(pid, f),
+                                                               ' no-failing-input-found' if no_input else ''))
             nviol += 1
             if nviol >= 5: break
         exit_code = 1
